@@ -277,6 +277,21 @@ type checker struct {
 	input string
 }
 
+// reported limits the violations emitted by one worker process to one per
+// class: the kit keeps at most 2000 violations in total, and a single defect
+// (take's negative Count) is hit by thousands of sub-cases, which would crowd
+// out every other class. The true number per class is kept in the counters.
+var reported = map[string]bool{}
+
+func (c *checker) violate(class, format string, a ...interface{}) {
+	c.r.Count("violations:"+class, 1)
+	if reported[class] {
+		return
+	}
+	reported[class] = true
+	c.r.Violate(class, format, a...)
+}
+
 type expect struct {
 	list    []item
 	ordered bool                // compare as list (else as multiset)
@@ -296,22 +311,22 @@ func (c *checker) check(fn, what string, e b6.Expression, want expect) {
 	switch {
 	case o.panicCl != "":
 		c.r.AddOutcome(fn + ":panic")
-		c.r.Violate(fn+":"+o.panicCl, "%s panicked: %s", desc, o.panicM)
+		c.violate(fn+":"+o.panicCl, "%s panicked: %s", desc, o.panicM)
 		return
 	case want.isErr:
 		if o.err == nil {
 			c.r.AddOutcome(fn + ":missing-error")
-			c.r.Violate(fn+":missing-error", "%s returned %s, the documentation requires an error", desc, show(o.items))
+			c.violate(fn+":missing-error", "%s returned %s, the documentation requires an error", desc, show(o.items))
 			return
 		}
 		c.r.AddOutcome(fn + ":error-as-documented")
 		return
 	case o.err != nil:
 		c.r.AddOutcome(fn + ":unexpected-error")
-		c.r.Violate(fn+":unexpected-error", "%s failed with %q, want %s", desc, o.err, show(want.list))
+		c.violate(fn+":unexpected-error", "%s failed with %q, want %s", desc, o.err, show(want.list))
 		return
 	case !o.isColl:
-		c.r.Violate(fn+":not-a-collection", "%s returned %T", desc, o.value)
+		c.violate(fn+":not-a-collection", "%s returned %T", desc, o.value)
 		return
 	}
 	if len(want.list) > 0 {
@@ -322,21 +337,21 @@ func (c *checker) check(fn, what string, e b6.Expression, want expect) {
 	if want.custom != nil {
 		if m := want.custom(o.items); m != "" {
 			ok = false
-			c.r.Violate(fn+":wrong-result", "%s returned %s: %s", desc, show(o.items), m)
+			c.violate(fn+":wrong-result", "%s returned %s: %s", desc, show(o.items), m)
 		}
 	} else if want.ordered && !sameList(o.items, want.list) || !want.ordered && !sameBag(o.items, want.list) {
 		ok = false
-		c.r.Violate(fn+":wrong-result", "%s returned %s, want %s", desc, show(o.items), show(want.list))
+		c.violate(fn+":wrong-result", "%s returned %s, want %s", desc, show(o.items), show(want.list))
 	}
 	countWrong := o.countOK && o.count != len(o.items)
 	if countWrong && !want.inheritsCount {
-		c.r.Violate(fn+":count-mismatch", "%s: Count() reports (%d, true) but iterating yields %d items %s", desc, o.count, len(o.items), show(o.items))
+		c.violate(fn+":count-mismatch", "%s: Count() reports (%d, true) but iterating yields %d items %s", desc, o.count, len(o.items), show(o.items))
 	}
 	if o.countOK {
 		c.r.Count("count-reported", 1)
 	}
 	if ok && (o.err2 != nil || (want.ordered && !sameList(o.items, o.second)) || (!want.ordered && !sameBag(o.items, o.second))) {
-		c.r.Violate(fn+":second-iteration-differs", "%s: first iteration %s, second iteration %s (err %v)", desc, show(o.items), show(o.second), o.err2)
+		c.violate(fn+":second-iteration-differs", "%s: first iteration %s, second iteration %s (err %v)", desc, show(o.items), show(o.second), o.err2)
 	}
 	// the same collection observed through the `count` function
 	if ok && !countWrong {
@@ -344,12 +359,12 @@ func (c *checker) check(fn, what string, e b6.Expression, want expect) {
 		oc := evaluate(call("count", e))
 		switch {
 		case oc.panicCl != "":
-			c.r.Violate(fn+":count-fn:"+oc.panicCl, "(count %s) panicked: %s", desc, oc.panicM)
+			c.violate(fn+":count-fn:"+oc.panicCl, "(count %s) panicked: %s", desc, oc.panicM)
 		case oc.err != nil:
-			c.r.Violate(fn+":count-fn-error", "(count %s) failed: %v", desc, oc.err)
+			c.violate(fn+":count-fn-error", "(count %s) failed: %v", desc, oc.err)
 		default:
 			if n, isInt := oc.value.(int); !isInt || n != len(o.items) {
-				c.r.Violate(fn+":count-fn-mismatch", "(count %s) = %v but the collection has %d items %s", desc, oc.value, len(o.items), show(o.items))
+				c.violate(fn+":count-fn-mismatch", "(count %s) = %v but the collection has %d items %s", desc, oc.value, len(o.items), show(o.items))
 			}
 		}
 	}
@@ -676,7 +691,7 @@ func (c *checker) runFeature(p profile, l []item, sorted bool) {
 		viaWorld = b6.FindCollectionByID(direct.CollectionID, w)
 	})
 	if cl != "" {
-		c.r.Violate("collection-feature:world:"+cl, "adding collection feature %s: %s", c.input, msg)
+		c.violate("collection-feature:world:"+cl, "adding collection feature %s: %s", c.input, msg)
 	}
 	// the arrays as the feature holds them (after sorting) are the reference order
 	var held []item
@@ -685,10 +700,10 @@ func (c *checker) runFeature(p profile, l []item, sorted bool) {
 	}
 	if sorted {
 		if !sameBag(held, l) {
-			c.r.Violate("collection-feature:sort-loses-items", "Sort() of %s gives %s", c.input, show(held))
+			c.violate("collection-feature:sort-loses-items", "Sort() of %s gives %s", c.input, show(held))
 		}
 		if !sortedByKey(held) {
-			c.r.Violate("collection-feature:sort-not-sorted", "Sort() of %s gives %s", c.input, show(held))
+			c.violate("collection-feature:sort-not-sorted", "Sort() of %s gives %s", c.input, show(held))
 		}
 	}
 	probes := append(append([]interface{}{}, p.keys...), p.absent)
@@ -704,10 +719,10 @@ func (c *checker) runFeature(p profile, l []item, sorted bool) {
 		// iterating the feature yields the items, and Count agrees
 		got, err := drain(viaWorld)
 		if err != nil || !sameList(got, held) {
-			c.r.Violate("collection-feature:iteration", "world.FindCollectionByID(..) of %s (sorted=%v) iterates as %s (err %v), want %s", c.input, sorted, show(got), err, show(held))
+			c.violate("collection-feature:iteration", "world.FindCollectionByID(..) of %s (sorted=%v) iterates as %s (err %v), want %s", c.input, sorted, show(got), err, show(held))
 		}
 		if n, ok := viaWorld.Count(); ok && n != len(got) {
-			c.r.Violate("collection-feature:count-mismatch", "world.FindCollectionByID(..) of %s: Count() = %d, iteration yields %d", c.input, n, len(got))
+			c.violate("collection-feature:count-mismatch", "world.FindCollectionByID(..) of %s: Count() = %d, iteration yields %d", c.input, n, len(got))
 		}
 	}
 	for ti, target := range targets {
@@ -729,14 +744,14 @@ func (c *checker) runFeature(p profile, l []item, sorted bool) {
 			})
 			what := fmt.Sprintf("%s %s (sorted=%v) key %s", tn, c.input, sorted, showV(key))
 			if cl != "" {
-				c.r.Violate("FindValue:"+cl, "%s: %s", what, msg)
+				c.violate("FindValue:"+cl, "%s: %s", what, msg)
 				continue
 			}
 			if gok != (len(wantAll) > 0) || (gok && !same(gv, wantAll[0])) {
-				c.r.Violate(fmt.Sprintf("FindValue:wrong:sorted=%v", sorted), "%s: FindValue = (%s, %v), linear scan gives %v", what, showV(gv), gok, wantAll)
+				c.violate(fmt.Sprintf("FindValue:wrong:sorted=%v", sorted), "%s: FindValue = (%s, %v), linear scan gives %v", what, showV(gv), gok, wantAll)
 			}
 			if len(gall) < 1 || gall[0] != "prefix" {
-				c.r.Violate("FindValues:drops-prefix", "%s: FindValues(key, [prefix]) = %v", what, gall)
+				c.violate("FindValues:drops-prefix", "%s: FindValues(key, [prefix]) = %v", what, gall)
 			} else {
 				rest := gall[1:]
 				okAll := len(rest) == len(wantAll)
@@ -744,7 +759,7 @@ func (c *checker) runFeature(p profile, l []item, sorted bool) {
 					okAll = same(rest[i], wantAll[i])
 				}
 				if !okAll {
-					c.r.Violate(fmt.Sprintf("FindValues:wrong:sorted=%v", sorted), "%s: FindValues = %v, linear scan gives %v", what, rest, wantAll)
+					c.violate(fmt.Sprintf("FindValues:wrong:sorted=%v", sorted), "%s: FindValues = %v, linear scan gives %v", what, rest, wantAll)
 				}
 			}
 			if len(wantAll) > 0 {
